@@ -245,7 +245,13 @@ impl Expression {
 pub struct ExpressionParser {
     input: Vec<char>,
     position: usize,
+    /// current nesting of `!` / `(` in `parse_primary`
+    depth: usize,
 }
+
+/// Maximum nesting of negations and parentheses. The parser is recursive, so an
+/// unbounded chain such as `((((…` or `!!!!…` would overflow the stack.
+const MAX_NESTING_DEPTH: usize = 128;
 
 impl ExpressionParser {
     /// Create a new parser
@@ -253,6 +259,7 @@ impl ExpressionParser {
         Self {
             input: input.chars().collect(),
             position: 0,
+            depth: 0,
         }
     }
 
@@ -338,14 +345,18 @@ impl ExpressionParser {
         // Handle negation
         if self.peek_char() == Some('!') {
             self.consume_char();
+            self.enter_nested()?;
             let expr = self.parse_primary()?;
+            self.depth -= 1;
             return Ok(Expression::Not(Box::new(expr)));
         }
 
         // Handle parentheses
         if self.peek_char() == Some('(') {
             self.consume_char();
+            self.enter_nested()?;
             let expr = self.parse_expression()?;
+            self.depth -= 1;
             self.skip_whitespace();
             if self.peek_char() != Some(')') {
                 return Err(RuleEngineError::ParseError {
@@ -371,6 +382,20 @@ impl ExpressionParser {
         // Handle field reference
         let field_name = self.consume_field_path()?;
         Ok(Expression::Field(field_name))
+    }
+
+    /// Enter one level of `!` / `(` nesting, refusing input nested too deeply
+    fn enter_nested(&mut self) -> Result<()> {
+        self.depth += 1;
+        if self.depth > MAX_NESTING_DEPTH {
+            return Err(RuleEngineError::ParseError {
+                message: format!(
+                    "Expression nested deeper than {} levels at position {}",
+                    MAX_NESTING_DEPTH, self.position
+                ),
+            });
+        }
+        Ok(())
     }
 
     fn consume_field_path(&mut self) -> Result<String> {
